@@ -222,6 +222,23 @@ func ruleC13parts(p *Prog, r *Res, ruleB string, partA, partB bool) {
 						})
 						return true
 					})
+					if !added && isFieldOf(info, arg, indexesFld) {
+						// the additions were moved into a helper of the package that this function calls
+						for _, c := range callsIn(f.Body()) {
+							hfn := p.Callee(f.Pkg, c)
+							if hfn == nil {
+								continue
+							}
+							if h := p.FnOfObj(hfn); h != nil && h.Pkg == f.Pkg && h != f && h.Body() != nil {
+								inspectShallow(h.Body(), func(y ast.Node) bool {
+									if as, ok := y.(*ast.AssignStmt); ok && len(as.Lhs) == 1 && isFieldOf(h.Pkg.TypesInfo, as.Lhs[0], indexesFld) {
+										added = true
+									}
+									return true
+								})
+							}
+						}
+					}
 					r.Check(added, ruleA, key+" [service hold]", p.Pos(call), "the locked slice is added to Manager.indexes in the same function",
 						"lock() result is discarded but the locked slice is not what this function adds to Manager.indexes: the use-count can never be released")
 					// a hold on the WHOLE list is taken once: inside a loop that adds readers one at a time it would count the
@@ -391,7 +408,60 @@ func ruleC13parts(p *Prog, r *Res, ruleB string, partA, partB bool) {
 							res.Found = false
 						}
 					}
-					r.Check(!res.Found, ruleB, key+" [add]", p.Pos(as), "the added readers are locked on every successful path (before or after the add)",
+					if res.Found && f.Lit == nil && f.Decl != nil && !ast.IsExported(f.Decl.Name.Name) {
+						// an unexported helper that only adds (loadIndexFiles, extracted from New): every caller takes the hold on
+						// the whole list on every successful path after the call
+						if fobj, _ := info.Defs[f.Decl.Name].(*types.Func); fobj != nil {
+							sites, good := 0, 0
+							for _, g := range p.FnList {
+								if g.Pkg != f.Pkg || g.Body() == nil || g == f {
+									continue
+								}
+								var gfl *Flow
+								for _, c := range callsIn(g.Body()) {
+									if fn := p.Callee(g.Pkg, c); fn == nil || fn.Origin() != fobj {
+										continue
+									}
+									sites++
+									if gfl == nil {
+										gfl = p.Flow(g)
+									}
+									cpt, okc := gfl.PointOf(c)
+									if !okc {
+										continue
+									}
+									wholeLock := func(n ast.Node) bool {
+										return gfl.hasCall(n, func(c2 *ast.CallExpr) bool {
+											return p.Callee(g.Pkg, c2) == lockM && len(c2.Args) == 1 && isFieldOf(g.Pkg.TypesInfo, c2.Args[0], indexesFld)
+										})
+									}
+									ginfo := g.Pkg.TypesInfo
+									miss := gfl.search([]Pt{After(cpt)}, func(n ast.Node) bool {
+										rs, ok := n.(*ast.ReturnStmt)
+										if !ok {
+											return false
+										}
+										if len(rs.Results) > 0 {
+											last := rs.Results[len(rs.Results)-1]
+											if id, ok := last.(*ast.Ident); !ok || id.Name != "nil" {
+												if t := ginfo.TypeOf(last); t != nil && types.Implements(t, errorIface()) {
+													return false
+												}
+											}
+										}
+										return true
+									}, wholeLock)
+									if !miss.Found {
+										good++
+									}
+								}
+							}
+							if sites > 0 && sites == good {
+								res.Found = false
+							}
+						}
+					}
+					r.Check(!res.Found, ruleB, key+" [add]", p.Pos(as), "the added readers are locked on every successful path (before or after the add; for an unexported helper: by every caller after the call)",
 						"readers are added to Manager.indexes on a path that never takes the service hold: the first loan release would close and delete a served file: "+fl.traceString(res))
 					return true
 				}
